@@ -640,6 +640,10 @@ class Interp:
         blob["model"] = M.nf_json(mx) if (mx is not None and op["kind"] in ("unit", "qty")) else None
         if op["kind"] == "qty":
             blob["m"] = mag_desc(x.magnitude)
+            if op["codec"] in ("json", "composite"):
+                from sim.clauses_c13 import render_class
+
+                blob["text_class"] = render_class(self, x.unit)
         return "blob", blob, mx, {"codec": op["codec"]}
 
     def op_load(self, op, prepare, prepared=None):
@@ -652,6 +656,32 @@ class Interp:
         y = self._deserialise(blob)
         mx = M.nf_from_json(blob["model"]) if blob.get("model") else None
         return blob["kind"], y, mx, {"_blob": blob, "codec": blob["codec"], "restarted": bool(self.restarted)}
+
+    def op_json_nested(self, op, prepare, prepared=None):
+        """Nested / repeated use of the global JSON codec context."""
+        if prepare:
+            return self._args(op, ("x", op["kind"]))
+        (x, mx), = prepared
+        from measured import json as mjson
+
+        how = op.get("how", "nested")
+        if how == "nested":
+            with mjson.codecs_installed():
+                with mjson.codecs_installed():
+                    inner = json.loads(json.dumps(x))
+                y = json.loads(json.dumps(x))
+        elif how == "install":
+            mjson.install()
+            try:
+                y = json.loads(json.dumps(x))
+            finally:
+                mjson.uninstall()
+        else:
+            with mjson.codecs_installed():
+                mjson.install()
+                mjson.uninstall()
+                y = json.loads(json.dumps(x))
+        return op["kind"], y, mx, {"_orig": x}
 
     def op_evict(self, op, prepare, prepared=None):
         if prepare:
